@@ -905,3 +905,129 @@ def c06_corr(res, exe, driver, tier, seed, tmp):
                 "with it. Scripts do not kill again after a yank-pop (class of known finding K1).")
     for c, impl, model, raw in out[:3]:
         res.samples.append({"keys": c.keys, "impl": " ## ".join(impl)[:400]})
+
+
+# ---------------------------------------------------------------- C07: history recall
+
+C07_POOL = ["one", "two words", "é日", "a b,c", "l1\nl2\nl3", "x", "ab\ncd", "  lead", "tail\n", "\nhead", "w" * 30, "q", "one"]
+RECALL_TAGS = {"prev", "next", "first", "last", "up", "down"}
+
+
+def gen_c07(rng):
+    cmds = []
+    for _ in range(rng.randint(3, 24)):
+        r = rng.random()
+        if r < 0.55:
+            key, tag = rng.choice([("C-p", "prev"), ("C-n", "next"), ("Up", "up"), ("Down", "down"), ("Up", "up"), ("Down", "down"),
+                                   ("M-<", "first"), ("M->", "last"), ("Up2", "up"), ("Down2", "down")])
+            cmds.append(Cmd([key], tag))
+        elif r < 0.75:
+            c = rng.choice(["a", "b", " ", "é", "日", ","])
+            cmds.append(Cmd([c], "ins", c=ord(c), n=1))
+        elif r < 0.82:
+            cmds.append(Cmd(["C-v", "C-j"], "ins", c=LF, n=1))
+        else:
+            key, tag = rng.choice([("C-a", "home"), ("C-e", "end"), ("Left", "left"), ("Right", "right"), ("C-k", "killeol"),
+                                   ("Backspace", "bs"), ("M-b", "bword"), ("C-_", "undo")])
+            cmds.append(Cmd([key], tag))
+    cmds.append(Cmd(["F12"], "noop"))
+    return cmds
+
+
+def c07_oracle_cases(tier, seed):
+    rng = random.Random(seed * 1301 + 13)
+    n = 3000 if tier == "thorough" else 260
+    cases = []
+    for _ in range(n):
+        hist = [rng.choice(C07_POOL) for _ in range(rng.choice([0, 1, 2, 3, 5]))]
+        cases.append(script_case(gen_c07(rng), mode="emacs", history=hist, timeout=rng.choice(["none", 0]),
+                                 prompt=rng.choice(["> ", "", "日> "]), cols=rng.choice([80, 80, 12]),
+                                 initial=p_tty.mk_initial(rng, 0.3, ["a", "b", "\n", "é", " "])))
+    # a very long line being typed (beyond the 4096-byte MAX_LINE of fixed-capacity buffers) must come back intact
+    for _ in range(24 if tier == "thorough" else 4):
+        body = "".join(rng.choice(["a", "b", "é", " "]) for _ in range(rng.randint(4080, 4400)))
+        k = rng.randint(0, len(body))
+        up, down = rng.choice([("C-p", "C-n"), ("Up", "Down"), ("M-<", "M->")])
+        cmds = [Cmd([up], {"C-p": "prev", "Up": "up", "M-<": "first"}[up]), Cmd(["x"], "ins", c=120, n=1),
+                Cmd([down], {"C-n": "next", "Down": "down", "M->": "last"}[down]), Cmd(["F12"], "noop")]
+        cases.append(script_case(cmds, mode="emacs", history=["old", "older"][:rng.choice([1, 2])], timeout=0, prompt="> ",
+                                 initial=(body[:k], body[k:])))
+    return cases
+
+
+def eval_c07(res, traces, stream):
+    stats = {}
+    for t in traces:
+        if not t.ok:
+            continue
+        hist = [[ord(ch) for ch in h] for h in t.case.history]
+        idx = len(hist)
+        saved = None
+        for i, (cmd, (text, pos), after, ob) in enumerate(t.steps):
+            if after[0] != "state":
+                break
+            text2, pos2 = after[1], after[2]
+            tag = cmd.tag
+            if tag in ("up", "down"):
+                pre, suf = split_at(text, pos)
+                if tag == "up" and LF in pre:
+                    tag = "lineup"
+                elif tag == "down" and LF in suf:
+                    tag = "linedown"
+                else:
+                    tag = "prev" if tag == "up" else "next"
+            if tag not in ("prev", "next", "first", "last", "lineup", "linedown"):
+                continue
+            stats[tag] = stats.get(tag, 0) + 1
+            exp = (text, pos)
+            if tag in ("lineup", "linedown"):
+                # moving between the lines of the text: the text stays, nothing is recalled, the cursor lands
+                # on the neighbouring line
+                pre2 = split_at(text2, pos2)[0] if text2 == text else None
+                ok = text2 == text and pre2 is not None and \
+                    pre2.count(LF) == split_at(text, pos)[0].count(LF) + (-1 if tag == "lineup" else 1)
+                if not ok:
+                    fail_case(res, stream, t, "%s at command %d on (%s,%d) should move one line, got (%s,%s)" % (tag, i, enc(text), pos, enc(text2), pos2))
+                    break
+                continue
+            if hist:
+                if tag == "prev" and idx > 0:
+                    if idx == len(hist):
+                        saved = (text, pos)
+                    idx -= 1
+                    exp = (hist[idx], blen(hist[idx]))
+                elif tag == "next" and idx < len(hist):
+                    idx += 1
+                    exp = saved if idx == len(hist) else (hist[idx], blen(hist[idx]))
+                elif tag == "first" and idx > 0:
+                    if idx == len(hist):
+                        saved = (text, pos)
+                    idx = 0
+                    exp = (hist[0], blen(hist[0]))
+                elif tag == "last" and idx < len(hist):
+                    idx = len(hist)
+                    exp = saved
+            res.nontrivial.add((tag, enc(text), pos, idx))
+            if (text2, pos2) != exp:
+                fail_case(res, stream, t, "%s at command %d: expected (%s,%d) [entry %d of %d], shown (%s,%s)" % (
+                    tag, i, enc(exp[0]), exp[1], idx, len(hist), enc(text2), pos2))
+                break
+    return stats
+
+
+def c07_corr(res, exe, driver, tier, seed, tmp):
+    cases = p_tty.c07_cases(tier, seed)
+    run_tty_cases(res, exe, driver, cases, tmp, "recall", rng=random.Random(seed), typeahead=0.3)
+    ocases = c07_oracle_cases(tier, seed)
+    out, traces = run_spec_stream(res, exe, driver, ocases, tmp, "recall-spec", seed)
+    stats = eval_c07(res, traces, "recall-spec")
+    res.distribution.update({"oracle": stats, "spec_alignment": alignment(traces), "recall_scripts": len(cases),
+                             "spec_scripts": len(ocases)})
+    res.rule = ("recall: random emacs/vi scripts with 0-5 history entries (multi-line, duplicates, leading blanks, a 30-column "
+                "entry in a 12-column window), Up/Down/C-p/C-n/M-</M-> and vi j/k/+/- with counts, edits of recalled entries, "
+                "line breaks typed into the line; compared with the extracted model. recall-spec: a reference walk (fixed "
+                "entry list, position, the line captured when recall starts) predicts what each recall command must show -- "
+                "the stored entry with the cursor at its end, clamping at both ends, the captured line and cursor when coming "
+                "back -- and Up/Down inside a multi-line text must move between lines without recalling.")
+    for c, impl, model, raw in out[:3]:
+        res.samples.append({"keys": c.keys, "impl": " ## ".join(impl)[:400]})
